@@ -119,6 +119,38 @@ func flushed(ms mapSpec) *gostatsd.MetricMap {
 			mm.Receive(&gostatsd.Metric{Name: s.Name, Type: ty, Value: v, StringValue: fmt.Sprint("m", v), Rate: 1, Tags: append(gostatsd.Tags{}, s.Tags...), Source: gostatsd.Source(s.Source), Timestamp: 5})
 		}
 	}
+	// the tag stage in front of the aggregators hands series on whose tag slices have spare capacity (it appends the
+	// static tags); the aggregator keeps such a slice as it is: a backend must not append to it
+	roomy := func(t gostatsd.Tags) gostatsd.Tags {
+		if t == nil {
+			return nil
+		}
+		return append(make(gostatsd.Tags, 0, len(t)+4), t...)
+	}
+	for n, byKey := range mm.Counters {
+		for k, v := range byKey {
+			v.Tags = roomy(v.Tags)
+			mm.Counters[n][k] = v
+		}
+	}
+	for n, byKey := range mm.Gauges {
+		for k, v := range byKey {
+			v.Tags = roomy(v.Tags)
+			mm.Gauges[n][k] = v
+		}
+	}
+	for n, byKey := range mm.Sets {
+		for k, v := range byKey {
+			v.Tags = roomy(v.Tags)
+			mm.Sets[n][k] = v
+		}
+	}
+	for n, byKey := range mm.Timers {
+		for k, v := range byKey {
+			v.Tags = roomy(v.Tags)
+			mm.Timers[n][k] = v
+		}
+	}
 	ag.ReceiveMap(mm)
 	ag.Flush(time.Second)
 	var out *gostatsd.MetricMap
